@@ -506,6 +506,11 @@ pub fn worker(which: &str, tier: &str, shard: u64, nshards: u64, budget_s: f64) 
                     if let (true, Some(g)) = (sok, est) {
                         variants.push((g.div_ceil(GAS_PER_BYTE), 3, "own allowance = estimate, trigger 3 bytes"));
                         variants.push((g.div_ceil(GAS_PER_BYTE), DEFAULT_LEN, "own allowance = estimate, trigger 100000 bytes"));
+                        // lengths whose allowance saturates (12000 x length >= 2^64): "(saturating)" — the parked
+                        // transaction keeps a practically unlimited allowance, it does not lose it
+                        variants.push((u64::MAX, 3, "own allowance saturated (length 2^64-1), trigger 3 bytes"));
+                        variants.push((u64::MAX / GAS_PER_BYTE + 1, DEFAULT_LEN, "own allowance just saturated (length 2^64/12000 + 1), trigger 100000 bytes"));
+                        variants.push((u64::MAX / GAS_PER_BYTE, 3, "own allowance just below saturation (length 2^64/12000), trigger 3 bytes"));
                     }
                     for (own_len, trig_len, vname) in variants {
                         st.lens_checked += 1;
@@ -530,7 +535,8 @@ pub fn worker(which: &str, tier: &str, shard: u64, nshards: u64, budget_s: f64) 
                             if own_len > 1 && !status {
                                 let th = rc["transactionHash"].clone();
                                 let out = a.call("debug_traceTransaction", json!([th])).result().and_then(|t| t["output"].as_str().map(|s| s.to_string())).unwrap_or_default();
-                                st.violations.push(mk("estimate-insufficient", format!("{} (drained: {})", what, vname), format!("estimate {:?} -> inscription length {}: the parked transaction drained by a call with inscription length {} failed (gasUsed {}, output {}, eth_call predicted {})", est, own_len, trig_len, rc["gasUsed"], trunc(&out, 80), trunc(&sdata, 80))));
+                                let kind = if own_len >= u64::MAX / GAS_PER_BYTE { "allowance-not-granted" } else { "estimate-insufficient" };
+                                st.violations.push(mk(kind, format!("{} (drained: {})", what, vname), format!("estimate {:?}, own inscription length {}: the parked transaction drained by a call with inscription length {} failed (gasUsed {}, output {}, eth_call predicted {})", est, own_len, trig_len, rc["gasUsed"], trunc(&out, 80), trunc(&sdata, 80))));
                             }
                         } else {
                             st.errors.push(format!("{}: the trigger did not drain the parked transaction ({} receipts)", what, rcs.len()));
@@ -647,6 +653,44 @@ pub fn worker(which: &str, tier: &str, shard: u64, nshards: u64, budget_s: f64) 
                     None => st.errors.push(format!("{}: the signer's transaction returned no receipt", what)),
                 }
                 a.call("brc20_clearCaches", json!([]));
+            }
+            // C17: code above the classic size limits (the module lifts them: 24576 bytes of runtime code, 49152 bytes
+            // of init code): created directly and by a factory, simulated and real
+            if which == "C17" && pi % 256 == 0 {
+                let big_runtime = |n: u16| -> Vec<u8> { vec![0x61, (n >> 8) as u8, n as u8, 0x5f, 0xf3] }; // RETURN(0, n): n zero bytes of runtime code
+                let mut long_init = vec![0x5bu8; 49_200];
+                long_init.extend_from_slice(&[0x60, 0x01, 0x5f, 0xf3]);
+                let mut cases: Vec<(String, Vec<u8>)> = vec![("runtime code of 24576 bytes".into(), big_runtime(24_576)), ("runtime code of 24577 bytes".into(), big_runtime(24_577)), ("runtime code of 40000 bytes".into(), big_runtime(40_000)), ("init code of 49204 bytes".into(), long_init)];
+                // a factory: its runtime CREATEs a child with 30000 bytes of runtime code and returns the child's address
+                let child_init = big_runtime(30_000);
+                let mut f = Asm::new();
+                f.push_bytes(&child_init).push(0).op(0x52); // mstore(0, child_init right-aligned)
+                f.push(child_init.len() as u64).push(32 - child_init.len() as u64).push(0).op(0xf0); // CREATE(0, 32-len, len)
+                f.push(0).op(0x52).push(32).push(0).op(0xf3);
+                cases.push(("factory of a child with 30000 bytes of runtime code".into(), crate::asm::initcode(&f.finish())));
+                for (cname, init) in cases {
+                    st.creations += 1;
+                    let (bs, bdata) = sim(&mut a, &addr_s(pk_addr(6)), None, &init);
+                    let mut w = worlds[0].clone();
+                    let (rc, _) = submit(&mut a, &mut w, &TxSpec::Deploy { pk: 6, code: init.clone(), len: DEFAULT_LEN });
+                    let created = rc["contractAddress"].as_str().map(|c| c.to_string());
+                    let installed = created.as_ref().and_then(|c| a.call("eth_getCode", json!([c])).result().and_then(|x| x.as_str().map(|s| s.to_string()))).unwrap_or_default();
+                    let real_ok = rc["status"].as_str() == Some("0x1");
+                    if bs != real_ok || (real_ok && bdata.trim_start_matches("0x") != installed.trim_start_matches("0x")) {
+                        st.violations.push(mk("simulated-creation-differs", format!("{} after {}", cname, pname), format!("eth_call creation returned (success {}, {} hex digits) but the deployment gave status {} and installed {} hex digits", bs, bdata.len(), rc["status"], installed.len())));
+                    }
+                    if cname.starts_with("factory") && real_ok {
+                        if let Some(fa) = &created {
+                            st.cases += 1;
+                            let (ok, data) = sim(&mut a, &sender, Some(fa), &[]);
+                            let (rc2, out) = submit(&mut a, &mut w, &TxSpec::Call { pk: 1, tgt: Tgt::Addr(fa.clone()), data: vec![], len: DEFAULT_LEN });
+                            if (rc2["status"].as_str() == Some("0x1")) != ok || out.trim_start_matches("0x") != data.trim_start_matches("0x") {
+                                st.violations.push(mk("call-differs-from-transaction", format!("{} after {}", cname, pname), format!("eth_call gave (success {}, data {}) but the transaction gave (status {}, output {})", ok, trunc(&data, 200), rc2["status"], trunc(&out, 200))));
+                            }
+                        }
+                    }
+                    a.call("brc20_clearCaches", json!([]));
+                }
             }
             // C17: a simulated creation runs at the address the real deployment gets (init code that bakes
             // ADDRESS, CALLER, ORIGIN and CODESIZE-independent environment into the runtime code), for a used
